@@ -4224,6 +4224,11 @@ func (t *Terminal) executeCommand(template string, forcePlus bool, background bo
 			if firstLineOnly {
 				line, _ = reader.ReadString('\n')
 				line = strings.TrimRight(line, "\r\n")
+				// The rest of the output is not needed. Close the pipe so that a command that
+				// prints more than the pipe can hold does not block forever
+				if out != nil {
+					out.Close()
+				}
 			} else {
 				bytes, _ := io.ReadAll(reader)
 				line = string(bytes)
